@@ -142,7 +142,16 @@ class MacDictS(Spec):
         ss = StrSet('the_%s_%d' % (self.kind, sym.uid()))
         kind = self.kind
         cache = {}
-        d.has = lambda ex_, st_, k: ss.member(ex_, st_, k)
+        def has(ex_, st_, k):
+            b = ss.member(ex_, st_, k)
+            # ghost log of membership tests (C09/C19: 'declared at the
+            # moment of the test'): (table, key term, answer, dict)
+            if sym.is_str(k):
+                kk = lift_str(k)
+                st_.ghost['$haslog'] = st_.ghost.get('$haslog', ()) + (
+                    (kind, kk.arr.sexpr(), str(kk.ln), b, d),)
+            return b
+        d.has = has
 
         def mk(ex_, st_, k):
             key = lift_str(k)
